@@ -202,8 +202,8 @@ theorem handleLostToken_marks (c : Ctx) (now : Int) (c1 : Ctx) (r : Res) (h : ha
 theorem doListenToken_marks (c : Ctx) (now : Int) : Marks now c (doListenToken c now) := by
   obtain ⟨hnone, _⟩ := handleLostToken_txok c now
   unfold doListenToken
-  split
-  · rcases hl : handleLostToken c now with ⟨c1, _ | r⟩
+  rcases hl : handleLostToken c now with ⟨c1, _ | r⟩
+  · split
     · obtain ⟨hk, hst1, hrx⟩ := hnone c1 hl
       simp only
       split
@@ -235,14 +235,16 @@ theorem doListenToken_marks (c : Ctx) (now : Int) : Marks now c (doListenToken c
           rw [fold_noTx _ (fun c t l => listenTelegram_noTx now c t l) _ _ c' h]
           exact hk.tx
       · exact Kind.panic _
+    · exact Kind.panic _
+  · split
     · exact handleLostToken_marks c now c1 r hl
-  · exact Kind.panic _
+    · exact Kind.panic _
 
 theorem doActiveIdle_marks (c : Ctx) (now : Int) : Marks now c (doActiveIdle c now) := by
   obtain ⟨hnone, _⟩ := handleLostToken_txok c now
   unfold doActiveIdle
-  split
-  · rcases hl : handleLostToken c now with ⟨c1, _ | r⟩
+  rcases hl : handleLostToken c now with ⟨c1, _ | r⟩
+  · split
     · obtain ⟨hk, hst1, hrx⟩ := hnone c1 hl
       simp only
       split
@@ -271,8 +273,10 @@ theorem doActiveIdle_marks (c : Ctx) (now : Int) : Marks now c (doActiveIdle c n
           rw [fold_noTx _ (fun c t l => idleTelegram_noTx now c t l) _ _ c' h]
           exact hk.tx
       · exact Kind.panic _
+    · exact Kind.panic _
+  · split
     · exact handleLostToken_marks c now c1 r hl
-  · exact Kind.panic _
+    · exact Kind.panic _
 
 theorem appTransmit_mark (c : Ctx) (now : Int) (hp : Bool) (c1 : Ctx) (sent : Bool)
     (h : appTransmit c now hp = (.ok c1, sent)) (h0 : c.tx = none) :
